@@ -522,6 +522,11 @@ func (s *LinearState) Clear(ctx *Context) error {
 		s.sunlock(ctx, true)
 		for _, id := range ids {
 			if err := s.remHook(ctx, s, id); err != nil {
+				if _, gone := err.(*NotFoundError); gone {
+					// The fact has expired (or has gone
+					// with one that has): nothing to do.
+					continue
+				}
 				Log(ERROR, ctx, "LinearState.Clear", "state", s.Name, "error", err,
 					"id", id, "when", "remHook")
 				return err
